@@ -235,7 +235,7 @@ def gen_cases(ctx):
             elif j == 8:
                 add("found", "PStats", "write:0", e, reads=data, wrap=["found"], hold=True)     # relay: write to the client
             elif j == 9:
-                add("found", "PStats", "close:0", e, reads=data, wrap=["found"])
+                add("found", "PStatsAsync", "close:0", e, reads=data, wrap=["found"])
             elif j == 10:
                 c = add("geo", "PPlain", "", e)
                 c["geo"] = {rng.choice(["cc", "asn"]): e}
@@ -257,11 +257,19 @@ def gen_cases(ctx):
     for e in ([op(sysx(leaf("errno:101"))), wrap(leaf("textaddr"))] if quick else rng.sample(sh, 12)):
         add("wraperr", None, "", e, reads=data[:1], wrap=["err"], wrap_err=e, level="warn")
         add("wraperr", None, "", e, reads=data[:1], wrap=["err"], wrap_err=e)
-    for c in (ctx.replay or {}).get("cases", []):
-        cases.insert(0, c)
-    for f in (ctx.replay or {}).get("failures", []):
-        if isinstance(f.get("case"), dict) and "scenario" in f["case"]:
-            cases.insert(0, f["case"])
+    rp = ctx.replay or {}
+    for c in rp.get("cases", []) + [f.get("case") for f in rp.get("failures", [])] + \
+            [(b.get("case") or {}).get("case") for b in rp.get("theorem_or_correspondence", []) + rp.get("broken", [])]:
+        if isinstance(c, dict) and "scenario" in c:
+            c = dict(c)
+            c["client"] = CLIENTS["v6" if ":" in c["client"] and not c["client"].startswith("::ffff:") else
+                                  ("v4mapped" if c["client"].startswith("::ffff:") else "v4")](ctr[0])   # keep addresses unique
+            ctr[0] += 1
+            c.setdefault("_point", None)
+            c.setdefault("_at", next(iter(c.get("err_at") or {}), ""))
+            c.setdefault("_shape", (c.get("err_at") or {}).get(c["_at"]) or c.get("wrap_err") or next(iter((c.get("geo") or {}).values()), None))
+            c.setdefault("_fam", "replay")
+            cases.insert(0, c)
     return cases
 
 
@@ -301,7 +309,7 @@ def observed_code(c, out):
         else:
             m = re.search(r"error occurred while setting deadline: ?(.*)", out)
         return parse_code(m.group(1)) if m else 0
-    if p == "PStats":
+    if p in ("PStats", "PStatsAsync"):
         m = re.search(r"proxy closed (\{.*\})", out)
         if not m:
             return 8
@@ -345,7 +353,7 @@ def run(ctx):
         "scripted net.Conn / GeoIP / transport and log capture in harness/inpkg/c17 (trusted)",
     ]
     ctx.cov["rule"] = ("a dynamic case is (call site, error shape, client address family); non-trivial if hash-distinct; classes: "
-                       "every error shape (17 errnos x 7 wrappings, 7 sentinels/texts x 5 wrappings) x 12 injection points "
+                       "every error shape (12 errnos x 7 wrappings, 7 sentinels/texts x 5 wrappings = 119) x 12 injection points "
                        "(discard paths, read loop, both SetDeadline sites, relay read/write/close, GeoIP in handler and ingest), "
                        "dial failure, PROXY header, blocklisted covert, transport error path, positive controls with LOG_CLIENT_IP; "
                        "static cases are the regenerated log sites")
